@@ -37,6 +37,7 @@ CHILDREN = [
     'n', '1', '"s"', '1.5', 'n.m', 'n.m()', 'n[0]', 'p + q', 'p * q', 'p ** q', 'p | q', '-p', 'not p', '~p', 'p and q', 'p or q', 'p < q', 'p if q else r',
     'lambda: p', 'lambda z: z', '(w := p)', 'p, q', '(p, q)', '[p, q]', '{p: q}', '{p, q}', '[i for i in p]', '(i for i in p)', 'await p', 'yield', 'yield p', 'yield from p',
     '*p', 'f"{p}"', '(p)', '((p + q))', 'p +\\\n q', '(p +\n q)', 'f(p,\n  q)', '[p,\n q]', 'p if q \\\n else r', '- 1', '1 .real', 'p[q:r]', 'p is not q', 'p not in q', '...', 'None', 'b"x"',
+    '(p # c\\\n.m)', '(p. # c\\\nm)', '(p.\nm)', "('s'\n't')", '(p  # c\n + q)',
 ]
 
 
@@ -114,6 +115,9 @@ def _mk_replace(key):
                 check(root.src == src, sig + '.src_changed_by_failed_replace', root.src)
                 if isinstance(e, NotImplementedError):
                     cover('raise.notimpl')
+                    return
+                if isinstance(rp, ast.MatchValue) and child_src.startswith('('):
+                    cover('raise.parenthesized_in_pattern')     # documented restriction: no parenthesized value in a pattern expression
                     return
                 check(not valid, 'replace.valid_replacement_refused', (key, slot, child_src, type(e).__name__, str(e)[:150]))
             cover('raise')
